@@ -110,6 +110,20 @@ class Typed:
                 stack.extend(self.operands[a])
         return seen
 
+    def node_nested(self, values):
+        """True iff some value of ``values`` is an ancestor of another one, or is produced by the same op application (autograd
+        node) as a strict ancestor of another one (e.g. [x.unbind()[1], sin(x.unbind()[0])])."""
+        for a in values:
+            for b in values:
+                if a == b:
+                    continue
+                anc = self.ancestors(b)
+                if a in anc:
+                    return True
+                if self.producer[a] is not None and any(self.producer[x] == self.producer[a] for x in anc):
+                    return True
+        return False
+
     def live_ops(self, outputs):
         """Indices of ops that are ancestors of ``outputs``."""
         live, stack = set(), list(outputs)
